@@ -135,24 +135,26 @@ type World struct {
 	App    *App
 	Calls  []*Call
 
-	dialScript   []DialOutcome
-	dialDefault  DialOutcome
-	dialParked   int
-	dialRelease  int
-	dialUnparks  int
-	Dials        int
-	gates        map[string]*gate
-	AutoAck      bool // release every owed response at once (drain mode)
-	AutoResend   bool // broker retransmits at once after accepting a connection
-	closedWorld  bool
-	lastEvent    time.Time
-	panics       []string
-	GoBase       int
-	HangQuiet    time.Duration
-	failed       bool
-	ConnackPol   ConnackPolicy // default for new connections
-	clientID     string
-	shut         bool
+	dialScript  []DialOutcome
+	dialDefault DialOutcome
+	dialParked  int
+	dialRelease int
+	dialUnparks int
+	Dials       int
+	gates       map[string]*gate
+	AutoAck     bool // release every owed response at once (drain mode)
+	AutoResend  bool // broker retransmits at once after accepting a connection
+	closedWorld bool
+	lastEvent   time.Time
+	panics      []string
+	GoBase      int
+	HangQuiet   time.Duration
+	failed      bool
+	ConnackPol  ConnackPolicy // default for new connections
+	clientID    string
+	shut        bool
+	// PipeLike makes connections behave like net.Pipe where that differs from TCP.
+	PipeLike     bool
 	NextConnOpts func(c *Conn)
 }
 
